@@ -244,6 +244,26 @@ add("c20-local-recover", ["C20"], "pkg/f1/f1_scenarios.go",
     "\t\t\t\tr(t)\n", "\t\t\t\tfunc() {\n\t\t\t\t\tdefer func() { _ = recover() }()\n\t\t\t\t\tr(t)\n\t\t\t\t}()\n")
 add("c20-skip-first", ["C20"], "pkg/f1/f1_scenarios.go", "\t\t\tfor _, r := range run {", "\t\t\tfor _, r := range run[1:] {")
 
+# ---------------- reverted repairs: each `fix:` commit of /repo, undone, is a seeded defect (DESIGN §8)
+add("fix-revert-c18-join-in-start-frame", ["C18", "C05"], "internal/raterun/runner.go",
+    "\tgo func() {\n\t\tdefer close(r.stopped)\n\n\t\tfor {", "\tdefer close(r.stopped)\n\n\tgo func() {\n\t\tfor {")
+add("fix-revert-c14-empty-unit", ["C14"], "internal/trigger/rate/rate.go",
+    "\t\tif unitArg == \"\" {\n\t\t\treturn rate, unit, fmt.Errorf(\"unable to parse unit %s: missing unit\", rateArg)\n\t\t}\n", "")
+add("fix-revert-c14-zero-unit", ["C14"], "internal/trigger/rate/rate.go",
+    "\t\tif unit <= 0 {\n\t\t\treturn rate, unit, fmt.Errorf(\"unit of rate %s must be positive\", rateArg)\n\t\t}\n", "")
+add("fix-revert-c14-zero-interval", ["C14"], "internal/trigger/api/iteration_distribution.go",
+    "\tif iterationDuration <= 0 {\n\t\treturn iterationDuration, rateFn, fmt.Errorf(\"iteration duration %s must be positive\", iterationDuration)\n\t}\n\n", "")
+add("fix-revert-c14-limits-concurrency", ["C14"], "internal/trigger/file/file_parser.go",
+    "\tif *c.Limits.Concurrency < 1 {\n\t\treturn nil, fmt.Errorf(\"concurrency %d can't be less than 1\", *c.Limits.Concurrency)\n\t}\n", "")
+add("fix-revert-c14-users-concurrency", ["C14"], "internal/trigger/file/file_parser.go",
+    "\tif *s.Concurrency < 1 {\n\t\treturn nil, fmt.Errorf(\"users %d can't be less than 1 at stage %d\", *s.Concurrency, idx)\n\t}\n", "")
+add("fix-revert-c14-negative-stage-target", ["C14"], "internal/trigger/staged/stage.go",
+    "\t\tif target < 0 {\n\t\t\treturn nil, fmt.Errorf(\"target %s in stage %d can't be negative: %s\", stageElement[1], i, stageElements)\n\t\t}\n", "")
+add("fix-revert-c02-phantom-drops", ["C02"], W + "trigger_pool.go",
+    "\tif p.manager.MaxIterationsReached() {\n\t\treturn\n\t}\n", "")
+add("fix-revert-c05-users-bare-wait", ["C05"], "internal/trigger/users/users_rate.go",
+    "\t\tselect {\n\t\tcase <-workers.WaitForCompletion():\n\t\tcase <-ctx.Done():\n\t\t}\n", "\t\t<-workers.WaitForCompletion()\n")
+
 expect = {}
 bad = []
 for i, props, f, old, new in S:
